@@ -114,6 +114,9 @@ pub struct StmtInfo {
     pub after_eol_off: usize,
     /// nesting depth (0 = top level)
     pub depth: usize,
+    /// the line rrss's syntax tree gives the statement (`Line for Assignment` = first token of the value,
+    /// for an array push the first token of the array expression); recorded for assignments and pushes
+    pub lint_line: Option<u32>,
 }
 
 #[derive(Clone, Debug, Default)]
@@ -281,7 +284,9 @@ impl<'r> Renderer<'r> {
         } else if k == 7 {
             self.push_raw("\t");
         } else if k == 8 {
-            self.push_raw("\u{a0}");
+            // any Unicode blank other than the line feed is ignorable
+            let b = *self.rng.pick(&["\u{a0}", "\u{a0}", "\u{2003}", "\u{3000}", "\u{b}", "\u{c}", "\u{85}", "\u{202f}", "\u{1680}"]);
+            self.push_raw(b);
         } else {
             self.push_raw(" ");
         }
@@ -991,6 +996,11 @@ impl<'r> Renderer<'r> {
         Ok(())
     }
 
+    /// line of the first token at or after index `k` that is not a comment
+    fn first_real_token_line(&self, k: usize) -> Option<u32> {
+        self.tokens[k.min(self.tokens.len())..].iter().find(|t| t.kind != TokKind::Comment).map(|t| t.line)
+    }
+
     fn header_done(&mut self, idx: usize, punct: EolPunct) {
         self.stmts[idx].end_off = self.out.len();
         self.stmts[idx].end_line = self.line;
@@ -1050,6 +1060,7 @@ impl<'r> Renderer<'r> {
             end_off: 0,
             after_eol_off: 0,
             depth: self.depth,
+            lint_line: None,
         });
         match s {
             Stmt::Assign { dest, op, value } => {
@@ -1080,7 +1091,9 @@ impl<'r> Renderer<'r> {
                 };
                 if use_put {
                     self.kw(Kw::Put);
+                    let k = self.tokens.len();
                     self.expr(&value[0])?;
+                    self.stmts[idx].lint_line = self.first_real_token_line(k);
                     self.kw(Kw::Into);
                     self.lhs(dest)?;
                 } else {
@@ -1095,7 +1108,9 @@ impl<'r> Renderer<'r> {
                         Some(BinOp::Divide) => self.op_kw(Kw::Over, false),
                         Some(_) => return inex("compound assignment with a non-arithmetic operator"),
                     }
+                    let k = self.tokens.len();
                     self.toplevel_list(value)?;
+                    self.stmts[idx].lint_line = self.first_real_token_line(k);
                 }
                 self.header_done(idx, EolPunct::Dot);
             }
@@ -1113,7 +1128,9 @@ impl<'r> Renderer<'r> {
                         if !ok {
                             return inex("poetic assignment expression must start with a literal");
                         }
+                        let k = self.tokens.len();
                         self.expr_lvl(e, 0, true)?;
+                        self.stmts[idx].lint_line = self.first_real_token_line(k);
                         self.header_done(idx, EolPunct::Dot);
                     }
                     PoeticRhs::Lit(elems) => {
@@ -1264,7 +1281,9 @@ impl<'r> Renderer<'r> {
             }
             Stmt::Push { array, value } => {
                 self.kw(Kw::Rock);
+                let k = self.tokens.len();
                 self.prim(array)?;
+                self.stmts[idx].lint_line = self.first_real_token_line(k);
                 match value {
                     None => {
                         self.header_done(idx, EolPunct::Dot);
